@@ -157,10 +157,16 @@ func RunCheck(opts CheckOpts) int {
 	for _, le := range eng.loadErrs {
 		fmt.Fprintln(os.Stderr, "govc: contract error:", le)
 	}
-	if len(eng.loadErrs) > 0 {
-		// a contract that does not resolve against the current source is a failed obligation, not a pass
-		fmt.Printf("VIOLATION property=%s replay=%s contract-resolution-failed no-failing-input-found\n", opts.Prop, writeNote(opts, "contract-resolution", strings.Join(eng.loadErrs, "\n")))
-		defer func() {}()
+	// a contract that does not resolve against the current source is a failed obligation, not a pass — for the
+	// properties that contract carries clauses for (and, through #subset, for every function that calls it)
+	var relErrs []string
+	for _, le := range eng.loadErrInfo {
+		if opts.Prop == "" || len(le.tags) == 0 || hasTag(le.tags, opts.Prop) {
+			relErrs = append(relErrs, le.msg)
+		}
+	}
+	if len(relErrs) > 0 {
+		fmt.Printf("VIOLATION property=%s replay=%s contract-resolution-failed no-failing-input-found\n", opts.Prop, writeNote(opts, "contract-resolution", strings.Join(relErrs, "\n")))
 	}
 	ff, err := loadFindings(filepath.Join(opts.VerifDir, "known_findings.json"))
 	if err != nil {
@@ -590,7 +596,7 @@ func RunCheck(opts CheckOpts) int {
 		fmt.Fprintln(os.Stderr, "govc: no obligations were generated (vacuous check)")
 		return 2
 	}
-	if violations > 0 || len(eng.loadErrs) > 0 {
+	if violations > 0 || len(relErrs) > 0 {
 		return 1
 	}
 	return 0
